@@ -1,4 +1,6 @@
 import Pyxv.Proofs.WarningsLemmas
+import Pyxv.Model.WarningsItext
+import Pyxv.Proofs.C07
 /-!
 # C20 — advisory warnings fire exactly when their trigger is present
 
@@ -326,7 +328,7 @@ theorem mem_missingToW (sheet : String) (m : List (Str × List Str)) (w : W) :
 
 theorem mem_missingDue (sheet : String) (ps : List (Str × Str)) (w : W) :
     w ∈ missingDue sheet ps ↔ ∃ l c, w = W.missingTr sheet.toList l c ∧ trMissing ps l c = true := by
-  simp only [missingDue, List.mem_flatMap, List.mem_map, List.mem_filter, List.mem_eraseDups]
+  simp only [missingDue, List.mem_flatMap, List.mem_map, List.mem_filter, mem_dedup]
   constructor
   · rintro ⟨l, _, c, ⟨_, h⟩, rfl⟩; exact ⟨l, c, rfl, h⟩
   · rintro ⟨l, c, rfl, h⟩
@@ -390,6 +392,94 @@ example : (convertOn lowerAscii
     { chHeaders := [], chRows := [], svHeaders := [["type".toList], ["name".toList]],
       svRows := [[(["type".toList], "simserial".toList), (["name".toList], "s".toList)]] } []).toOption.map (·.2)
     = some [W.misspell "settings".toList ["setting".toList], W.deprecated 2 "simserial".toList] := by decide +kernel
+
+
+section Multiset
+open List
+
+theorem missing_perm (sheet : String) (tbl : Aliases) (hs : List (List Str)) (hsh : trShort tbl hs = true) :
+    missingToW sheet (findMissing (findTranslations tbl hs)) ~ missingDue sheet (trPairs tbl hs) :=
+  (List.perm_ext_iff_of_nodup
+    (nodup_missingToW sheet _ (findTranslations_keys_nodup tbl hs) (findTranslations_cols_nodup tbl hs))
+    (nodup_missingDue sheet _)).mpr (fun w => missing_eq sheet tbl hs hsh w)
+
+/-- **Capstone with multiplicities.**  Whenever the model converts a workbook, the list of warnings it emits is a
+    permutation of the list due by the specification: same warnings, same number of times each. -/
+theorem model_meets_spec_perm (lower : Str → Str) (wb : WB) (v : View) (res : Res) (ws : List W)
+    (hsv : trShort surveyTrTable v.svHeaders = true) (hch : trShort choicesTrTable v.chHeaders = true)
+    (h : convertOn lower wb v [] = .ok (res, ws)) : ws ~ dueOn lev lower wb v := by
+  rw [convertOn_eq] at h
+  cases hcw : choicesWarnings (groupChoices (numberFrom 2 v.chRows)) with
+  | error e => simp [hcw] at h
+  | ok chW =>
+    simp only [hcw, List.nil_append] at h
+    cases hrl : rowLoop 2 v.svRows { warnings := preRows lower wb v chW } with
+    | error e => simp [hrl] at h
+    | ok st =>
+      simp only [hrl, Except.ok.injEq, Prod.mk.injEq] at h
+      obtain ⟨_, rfl⟩ := h
+      obtain ⟨hw, ho⟩ := rowLoop_ok _ _ _ _ hrl
+      simp only [Bool.false_or] at ho
+      rw [hw, ho, or_other_iff _ _ hsv hch]
+      have hchoice := choice_no_label_perm (numberFrom 2 v.chRows) chW hcw
+      unfold preRows dueOn missingCheck
+      rw [misspell_eq, misspell_eq]
+      refine List.Perm.append_right _ (List.Perm.append_right _ ?_)
+      rw [← List.append_assoc]
+      refine List.Perm.append (List.Perm.append (List.Perm.append_right _ (List.Perm.append_left _ ?_))
+        (missing_perm "survey" _ _ hsv)) (missing_perm "choices" _ _ hch)
+      by_cases hce : wb.choices.isEmpty = true
+      · simp [hce]
+      · have hce' : wb.choices.isEmpty = false := by simpa using hce
+        simp only [hce', Bool.false_eq_true, if_false]
+        exact List.Perm.append_left _ hchoice
+
+/-- the same at the level of `workbook_to_json` -/
+theorem workbook_meets_spec_perm (lower : Str → Str) (wb : WB) (res : Res) (ws : List W)
+    (h : workbookToJson lower wb [] = .ok (res, ws)) :
+    ∃ v, view wb = .ok v ∧ workbookDue lev lower wb = .ok (dueOn lev lower wb v) ∧
+      (trShort surveyTrTable v.svHeaders = true → trShort choicesTrTable v.chHeaders = true →
+        ws ~ dueOn lev lower wb v) := by
+  unfold workbookToJson at h
+  cases hv : view wb with
+  | error e => simp [hv] at h
+  | ok v =>
+    simp only [hv] at h
+    exact ⟨v, rfl, by simp [workbookDue, hv], fun hsv hch => model_meets_spec_perm lower wb v res ws hsv hch h⟩
+
+end Multiset
+
+
+/-! ## IANA on the model's language set -/
+
+/-- **iana_survey_iff.**  For a built survey inside the itext model's fragment, a language of ≥ 3 characters is
+    named in the IANA warning iff it is the language of one of the `<translation>` blocks the itext model (C07)
+    generates, is not `default`, and carries no registered `(code)`. -/
+theorem iana_survey_iff (isTag : Str → Bool) (x : Itext.Survey) (o : Itext.Out) (h : Itext.run x = .ok o)
+    (l : Str) (hlen : 3 ≤ l.length) :
+    (∃ bad, W.iana bad ∈ ianaOfSurvey isTag x ∧ l ∈ bad) ↔
+      (∃ t ∈ o.translations, t.lang = l) ∧ ianaDue isTag l = true := by
+  have hl : surveyLanguages x = some (o.translations.map (·.lang)) := by simp [surveyLanguages, h]
+  simp only [ianaOfSurvey, hl, ianaWarning]
+  have hi := iana_iff isTag (o.translations.map (·.lang)) l hlen
+  simp only [List.mem_map] at hi
+  cases hb : languagesWithBadTags isTag (o.translations.map (·.lang)) with
+  | nil =>
+    rw [hb] at hi
+    simp only [List.not_mem_nil, false_and, exists_false, false_iff]
+    intro hc; exact (List.not_mem_nil (hi.mpr hc))
+  | cons b bs =>
+    rw [hb] at hi
+    simp only [List.mem_singleton, W.iana.injEq]
+    constructor
+    · rintro ⟨bad, rfl, hm⟩; exact hi.mp hm
+    · intro hc; exact ⟨_, rfl, hi.mpr hc⟩
+
+/-- non-vacuity: C07's example survey with a second choice labelled in "French" — inside the itext model's fragment,
+    the uncoded language is reported -/
+example : (match Itext.run (Pyxv.C07.ex1 (Pyxv.C07.tr [("French", "B")])) with | .ok _ => true | _ => false) = true ∧
+    ianaOfSurvey (fun c => c = "en".toList) (Pyxv.C07.ex1 (Pyxv.C07.tr [("French", "B")])) = [W.iana ["French".toList]] := by
+  decide +kernel
 
 /-! ## the tables the triggers are read from (pinned: the documented sets) -/
 
